@@ -80,3 +80,32 @@ Theorem c05_rowmerge_counts_executable : forall n ents j, (j < n)%nat ->
   nth j (rm_colcounts n ents) 0%nat = lcount n (rowmerge n n (tab n (pat_of ents))) j.
 Proof. exact rm_colcounts_spec. Qed.
 Print Assumptions c05_rowmerge_counts_executable.
+
+From SLU Require Import WorkLayout Consts.
+Local Open Scope Z_scope.
+
+(* the per-thread work arrays suffice.  Every c_* definition below is TRANSLATED from the current source by tools/gen_consts.py
+   (pxgstrf_SetIWork, p?gstrf_WorkInit, NUM_TEMPV, p?gstrf_SetRWork, p?gstrf_bmod2D), so this is re-proved against what the
+   code says now: the seven pieces of the integer array (documented lengths n, n, 2n, wn, wn, NO_MARKER n, n) are disjoint and
+   inside the WorkInit allocation of every precision *)
+Theorem c05_iwork_pieces_disjoint_in_range : forall n w, 0 <= n -> 1 <= w ->
+  let offs := iw_offsets n w in let lens := iw_lengths n w in
+  (forall i, (i < 7)%nat -> 0 <= nth i offs 0 /\ nth i offs 0 + nth i lens 0 <= c_work_isize_d n w
+                            /\ nth i offs 0 + nth i lens 0 <= c_work_isize_s n w
+                            /\ nth i offs 0 + nth i lens 0 <= c_work_isize_c n w
+                            /\ nth i offs 0 + nth i lens 0 <= c_work_isize_z n w) /\
+  (forall i j, (i < j)%nat -> (j < 7)%nat -> nth i offs 0 + nth i lens 0 <= nth j offs 0) /\
+  c_iw_fill_repfnz n w <= nth 3 lens 0.
+Proof. exact iwork_pieces_disjoint_in_range. Qed.
+Print Assumptions c05_iwork_pieces_disjoint_in_range.
+
+(* dense[] and tempv[] are disjoint and inside the real work array; tempv[] is long enough for the 1-D update and for every
+   column of a panel in the 2-D update (stride = maxsuper + rowblk), in all four precisions *)
+Theorem c05_rwork_suffices :
+  rwork_ok c_num_tempv_s c_work_dsize_s c_rw_tempv_s c_rw_fill_dense_s c_rw_fill_tempv_s c_bmod2d_lda_s c_bmod2d_mv_s /\
+  rwork_ok c_num_tempv_d c_work_dsize_d c_rw_tempv_d c_rw_fill_dense_d c_rw_fill_tempv_d c_bmod2d_lda_d c_bmod2d_mv_d /\
+  rwork_ok c_num_tempv_c c_work_dsize_c c_rw_tempv_c c_rw_fill_dense_c c_rw_fill_tempv_c c_bmod2d_lda_c c_bmod2d_mv_c /\
+  rwork_ok c_num_tempv_z c_work_dsize_z c_rw_tempv_z c_rw_fill_dense_z c_rw_fill_tempv_z c_bmod2d_lda_z c_bmod2d_mv_z /\
+  (c_bmod2d_stride_is_lda_s && c_bmod2d_stride_is_lda_d && c_bmod2d_stride_is_lda_c && c_bmod2d_stride_is_lda_z)%bool = true.
+Proof. exact (conj rwork_ok_s (conj rwork_ok_d (conj rwork_ok_c (conj rwork_ok_z bmod2d_strides_are_lda)))). Qed.
+Print Assumptions c05_rwork_suffices.
